@@ -112,8 +112,10 @@ def check_pop(ctx, P):
     dec = one(dec, "first (decrementing) store to bottom", f)
     bad1 = bad2 = bad3 = None
     cases = 0
-    for B in range(0, 5):
-        for T in range(0, 5):
+    # small values, and the same pairs shifted beyond 2^32 (top and bottom only ever grow; a narrowed local breaks there)
+    for B, T in [(b_, t_) for b_ in range(0, 5) for t_ in range(0, 5)] + [(2 ** 32 + b_, 2 ** 32 + t_) for b_ in range(0, 5) for t_ in range(1, 4)] + \
+                [(2 ** 32 + 1, 2 ** 32 - 1), (2 ** 31 + 2, 2 ** 31)]:
+        if True:
             atom = atom_from([(isBn, B), (isTn, T)])
             size = B - 1 - T
             cases += 1
@@ -214,8 +216,9 @@ def check_steal(ctx, P):
     o = ctx.ob("steal.claim", f, "the slot value is returned only after a successful CAS on top and only if bottom-top > 0",
                "a thief that returns the value after losing the CAS duplicates a fiber that somebody else took")
     bad = None
-    for B in range(0, 4):
-        for T in range(0, 4):
+    for B, T in [(b_, t_) for b_ in range(0, 4) for t_ in range(0, 4)] + [(2 ** 32 + b_, 2 ** 32 + t_) for b_ in range(0, 4) for t_ in range(1, 3)] + \
+                [(2 ** 32 + 1, 2 ** 32 - 1), (2 ** 31 + 2, 2 ** 31)]:
+        if True:
             atom = atom_from([(isBn, B), (isTn, T)])
             for r in f.returns():
                 if const_return(f, r) is not None:
@@ -258,8 +261,8 @@ def check_push(ctx, P):
         if not (s.kind == "atomic" and order_ge(s.order or "relaxed", "release")) and s.order != "seq_cst":
             bad = bad or ("bottom store has order %s" % (s.order or "plain"), s.node, None, "bottom store order")
         try:
-            if ev(f, s.value, atom_from([(isBn, 5)])) != 6:
-                bad = bad or ("bottom store writes `%s`, expected bottom+1" % s.value.text, s.node, None, "bottom store value")
+            if ev(f, s.value, atom_from([(isBn, 5)])) != 6 or ev(f, s.value, atom_from([(isBn, 2 ** 32 + 5)])) != 2 ** 32 + 6:
+                bad = bad or ("bottom store writes `%s`, expected bottom+1 (also beyond 2^32)" % s.value.text, s.node, None, "bottom store value")
         except Unevaluable:
             bad = bad or ("cannot evaluate `%s`" % s.value.text, s.node, None, "bottom store value")
     if bad:
@@ -269,11 +272,12 @@ def check_push(ctx, P):
     # slot index is the old bottom
     o = ctx.ob("push.slot", f, "the slot written is the one at index `bottom` (as loaded)", "")
     p = puts[0]
+    BIG = 2 ** 32 + 5          # bottom only grows: 2^32 pushes on one deque are minutes of yielding
     try:
-        v = ev(f, f.args(p)[1], atom_from([(isBn, 5)]))
+        v = [ev(f, f.args(p)[1], atom_from([(isBn, x)])) for x in (5, BIG)]
     except Unevaluable:
         v = None
-    o.check(v == 5, "index = bottom", "slot index is `%s`" % f.args(p)[1].text, site=p, construct="push slot index")
+    o.check(v == [5, BIG], "index = bottom (also beyond 2^32)", "slot index for bottom = 5, 2^32+5 is %s (`%s`)" % (v, f.args(p)[1].text), site=p, construct="push slot index")
     # growth
     grows = f.calls("wsd_circular_array_grow")
     o = ctx.ob("push.grow", f, "the array is grown before a slot would be overwritten: with bottom-top == capacity "
